@@ -639,6 +639,10 @@ class Response:
         # thus removing it from future request objects.
         self._cookies[name]['expires'] = -1
 
+        # NOTE: A Max-Age left over from an earlier set_cookie() for the same
+        #   name would take precedence over Expires (RFC 6265, section 5.3).
+        self._cookies[name]['max-age'] = ''
+
         # NOTE(CaselIT): Set SameSite to Lax to avoid setting invalid cookies.
         # See https://developer.mozilla.org/en-US/docs/Web/HTTP/Headers/Set-Cookie/SameSite#Fixing_common_warnings  # noqa: E501
         self._cookies[name]['samesite'] = samesite
